@@ -142,15 +142,14 @@ func sanitize(s string) string {
 
 func isAtom(e string) bool { return !strings.HasPrefix(e, "(") }
 
-var foldRe = regexp.MustCompile(`^\((\+|-|\*) (\d+) (\d+)\)$`)
+var foldRe = regexp.MustCompile(`^\((\+|-|\*) (\d+|\(- \d+\)) (\d+|\(- \d+\))\)$`)
 var addZeroRe = regexp.MustCompile(`^\(\+ (\S+) 0\)$|^\(\+ 0 (\S+)\)$|^\(\* (\S+) 1\)$|^\(- (\S+) 0\)$`)
 
 // fold: constant folding of the simplest integer shapes (keeps literals literal,
 // which lets later stages drop empty copies and recognise constant offsets).
 func fold(expr string) string {
 	if m := foldRe.FindStringSubmatch(expr); m != nil {
-		a, _ := new(big.Int).SetString(m[2], 10)
-		b, _ := new(big.Int).SetString(m[3], 10)
+		a, b := litVal(m[2]), litVal(m[3])
 		var r *big.Int
 		switch m[1] {
 		case "+":
@@ -175,9 +174,48 @@ func fold(expr string) string {
 	return expr
 }
 
+var cmpLitOnly = regexp.MustCompile(`^(\d+|\(- \d+\))$`)
+var cmpLitRe = regexp.MustCompile(`^\((<=|<|>=|>|=) (\d+|\(- \d+\)) (\d+|\(- \d+\))\)$`)
+
+func litVal(s string) *big.Int {
+	if strings.HasPrefix(s, "(- ") {
+		v, _ := new(big.Int).SetString(strings.TrimSuffix(strings.TrimPrefix(s, "(- "), ")"), 10)
+		return v.Neg(v)
+	}
+	v, _ := new(big.Int).SetString(s, 10)
+	return v
+}
+
+// foldBool: comparisons between literals.
+func foldBool(expr string) string {
+	if m := cmpLitRe.FindStringSubmatch(expr); m != nil {
+		a, b := litVal(m[2]), litVal(m[3])
+		var r bool
+		switch m[1] {
+		case "<=":
+			r = a.Cmp(b) <= 0
+		case "<":
+			r = a.Cmp(b) < 0
+		case ">=":
+			r = a.Cmp(b) >= 0
+		case ">":
+			r = a.Cmp(b) > 0
+		default:
+			r = a.Cmp(b) == 0
+		}
+		if r {
+			return "true"
+		}
+		return "false"
+	}
+	return expr
+}
+
 func (c *Ctx) def(sort, expr string) string {
 	if sort == "Int" {
 		expr = fold(expr)
+	} else if sort == "Bool" {
+		expr = foldBool(expr)
 	}
 	if isAtom(expr) || c.raw > 0 {
 		return expr
@@ -313,6 +351,14 @@ func lit(v *big.Int) string {
 // wrap an Int term into the range of an integer leaf (exact machine semantics)
 func (c *Ctx) wrap(e string, l leaf) string {
 	m := pow2(l.bits)
+	if cmpLitOnly.MatchString(e) {
+		v := litVal(e)
+		v = new(big.Int).Mod(v, m)
+		if l.signed && v.Cmp(pow2(l.bits-1)) >= 0 {
+			v.Sub(v, m)
+		}
+		return lit(v)
+	}
 	if !l.signed {
 		if mx := c.getMax(e); mx != nil && mx.Cmp(m) < 0 {
 			return e // known to lie in [0, 2^bits): no wrap
